@@ -100,7 +100,8 @@ def run_c19(chk, prog):
         for e in und:
             chk.ob("C19.O4", "index in SignType::from_bytes is within the checked length (%s: %s)" % (e[1], fmt_term(e[2])), False, key="from_bytes:oob:%s" % e[1], where=e[3])
         cons = norm_cons(p.cons)
-        foreign = [k for k in cons if k not in (L, B0, B1) and not (k[0] == "app" and k[1] in ("Ne", "Eq") and L in k[2])]
+        # (a comparison of the family / id byte with a constant is recorded in that byte's own domain as well)
+        foreign = [k for k in cons if k not in (L, B0, B1) and not (k[0] == "app" and k[1] in ("Ne", "Eq") and (L in k[2] or (any(x in (B0, B1) for x in k[2]) and any(x[0] == "int" for x in k[2]))))]
         if foreign:
             chk.unproven("C19.O4", "from_bytes:foreign:%s" % fmt_term(foreign[0]), "SignType::from_bytes branches on %s (not length / family byte / id byte)" % fmt_term(foreign[0]), w)
             continue
